@@ -876,7 +876,9 @@ func (w *simWorld) rpkiCompare(st *rpkiState) {
 			life := time.Duration(st.lifetime) * time.Second
 			since := w.now() - lostAt
 			switch {
-			case w.now()-lostLast > life+2*time.Second:
+			case w.now()-lostLast > life+2*time.Second && lastEOD < lostLast:
+				// (a response noted at the very instant of the loss may belong to the new connection:
+				// the order of the two notes is not pinned down then, nothing is claimed)
 				if len(g) > 0 {
 					w.violate("C16", "roa-outlives-lifetime", c.addr, fmt.Sprintf("the connection was lost at %.3fs and no response has completed since; %.0fs later (lifetime %ds) %d record(s) of the lost session are still in the table, e.g. %s", lostAt.Seconds(), since.Seconds(), st.lifetime, len(g), sortedRecs(g)[0]))
 				}
